@@ -99,7 +99,7 @@ func needsUpdateRule(o *Ob) {
 
 func init() {
 	propInfos["C04"] = &propInfo{
-		Explanation: "Decides the de-duplication discipline: (1) needsUpdate's decision table over its seven conditions equals the property's cases (first notification iff something fires; new firing alert; all resolved iff the previous notification listed firing alerts; new resolved alert under send_resolved; otherwise iff the entry is strictly older than now − repeat_interval); (2) DedupStage.Exec feeds it the logged entry for (group key, receiver), this flush's firing/resolved hash sets, the context's repeat interval and the flush's clock, passes alerts on iff it says notify; the dispatcher puts tick time and the route's repeat interval into the context; (3) SetNotifiesStage logs this flush's hashes with expiry 2×repeat; Log's expiry table; (4) one key function for every access to the log state; (5) GC deletes iff the expiry is not after now; (6) alerts are partitioned by Resolved(); hashAlert is a deterministic function of the sorted label pairs.",
+		Explanation: "Decides the de-duplication discipline: (1) needsUpdate's decision table over its seven conditions equals the property's cases (first notification iff something fires; new firing alert; all resolved iff the previous notification listed firing alerts; new resolved alert under send_resolved; otherwise iff the entry is strictly older than now − repeat_interval); (2) DedupStage.Exec feeds it the logged entry for (group key, receiver), this flush's firing/resolved hash sets, the context's repeat interval and the flush's clock, passes alerts on iff it says notify; the dispatcher puts tick time and the route's repeat interval into the context; (3) SetNotifiesStage logs this flush's hashes with expiry 2×repeat; Log's expiry table; (4) one key function for every access to the log state; (5) GC deletes iff the expiry is not after now; (6) alerts are partitioned by Resolved(); hashAlert is a deterministic function of the sorted label pairs; the entry the de-duplication reads is the newest one: nflog state.merge is a last-writer-wins join and Log replaces the stored entry (shared with C10).",
 		NotDecided:  "that repeats arrive on time (timers, scheduling); interaction of retention with very long repeat intervals beyond the expiry table.",
 	}
 
